@@ -136,6 +136,18 @@ def _t_text(n_t):
     return "[" + ", ".join(str(round(0.1 * (k + 1) + 0.03 * k * k, 3)) for k in range(n_t)) + "]"
 
 
+def _radii_parser(TR, radii_arr):
+    """the real TranslationParser (its real __init__ parses a placeholder text) whose radii are `radii_arr` from the moment the
+    constructors of PositionGrid / FullGrid get to see it -- whatever those constructors derive from the radii eagerly is derived from the
+    values of the run, not from the placeholder's"""
+    class RadiiParser(TR.TranslationParser):
+        def __init__(self, user_input):
+            super().__init__(user_input)
+            self.trans_grid = radii_arr
+    RadiiParser.__name__ = RadiiParser.__qualname__ = "TranslationParser"
+    return RadiiParser
+
+
 def make_positiongrid(F, TR, dirstub, radii_arr, cartesian=False):
     """a real PositionGrid built by its REAL __init__ (so that whatever it initialises exists), with the direction-grid factory
     replaced by one that hands out the stub and the radii replaced by `radii_arr` after the (real) parse of a placeholder text"""
@@ -145,9 +157,8 @@ def make_positiongrid(F, TR, dirstub, radii_arr, cartesian=False):
         @staticmethod
         def create(alg_name=None, N=None, **k):
             return dirstub
-    with bound(F, SphereGrid3DFactory=F3):
+    with bound(F, SphereGrid3DFactory=F3, TranslationParser=_radii_parser(TR, radii_arr)):
         pg = F.PositionGrid(o_grid_name=str(dirstub.get_N()), t_grid_name=_t_text(len(radii_arr)), position_grid_cartesian=cartesian)
-    pg.t_grid.trans_grid = radii_arr
     return pg
 
 
@@ -171,9 +182,8 @@ def make_fullgrid(F, TR, Vm, n_b, dirstub, radii_arr, factor, G=None, full_stub=
         @staticmethod
         def create(alg_name=None, N=None, **k):
             return dirstub
-    with bound(F, SphereGrid4DFactory=F4, SphereGrid3DFactory=F3):
+    with bound(F, SphereGrid4DFactory=F4, SphereGrid3DFactory=F3, TranslationParser=_radii_parser(TR, radii_arr)):
         fg = F.FullGrid(str(n_b), str(dirstub.get_N()), _t_text(len(radii_arr)), factor=factor, position_grid_cartesian=cartesian)
-    fg.position_grid.t_grid.trans_grid = radii_arr
     return fg
 
 
@@ -261,16 +271,30 @@ def decoy_radii(n_t, mkarr, dv, tag):
     return mkarr(out)
 
 
+def _try(fn):
+    """a decoy that cannot be built (e.g. its constructor's own assertion on the radii of this path) is simply absent"""
+    try:
+        return fn()
+    except Exception:  # noqa: BLE001 (PathAbort / Unsupported are BaseException and pass)
+        return None
+
+
 def exercise_position_decoys(F, TR, dirstub, radii_arr, mkarr, dv, tag="A"):
     """a collision twin (other radii, same name) and a Cartesian twin (same names, same radii) of a PositionGrid; both asked for everything"""
     from harness.common import bound
     n_t = len(radii_arr)
-    d1 = make_positiongrid(F, TR, dirstub, decoy_radii(n_t, mkarr, dv, tag))
-    _ask(d1, POS_GETTERS, [lambda p=p: d1._get_N_N_position_array(sel_property=p) for p in ("adjacency", "border_len", "center_distances")])
-    with bound(F, Voronoi=_NoQhull):
-        d2 = make_positiongrid(F, TR, dirstub, radii_arr.copy(), cartesian=True)
-    _stub_cartesian_getters(d2, mkarr, dv, tag)
-    _ask(d2, POS_GETTERS, [lambda p=p: d2._get_N_N_position_array(sel_property=p) for p in ("adjacency", "border_len", "center_distances")])
+    props = ("adjacency", "border_len", "center_distances")
+    d1 = _try(lambda: make_positiongrid(F, TR, dirstub, decoy_radii(n_t, mkarr, dv, tag)))
+    if d1 is not None:
+        _ask(d1, POS_GETTERS, [lambda p=p: d1._get_N_N_position_array(sel_property=p) for p in props])
+
+    def twin():
+        with bound(F, Voronoi=_NoQhull):
+            return make_positiongrid(F, TR, dirstub, radii_arr.copy(), cartesian=True)
+    d2 = _try(twin)
+    if d2 is not None:
+        _stub_cartesian_getters(d2, mkarr, dv, tag)
+        _ask(d2, POS_GETTERS, [lambda p=p: d2._get_N_N_position_array(sel_property=p) for p in props])
     return d1, d2
 
 
@@ -283,12 +307,15 @@ def exercise_full_decoys(F, TR, Vm, n_b, dirstub, radii_arr, factor, mkarr, dv, 
     n_t = len(radii_arr)
     # construction order: the decoy that differs most (other factor, other radii under the same name) is constructed LAST (state written by
     # constructors) and asked FIRST (state written by getters, e.g. caches keyed by the lossy name)
-    with bound(F, Voronoi=_NoQhull):
-        d2 = make_fullgrid(F, TR, Vm, n_b, dirstub, radii_arr.copy(), factor, G, full_stub, cartesian=True)
-    _stub_cartesian_getters(d2.position_grid, mkarr, dv, tag)
-    d1 = make_fullgrid(F, TR, Vm, n_b, dirstub, decoy_radii(n_t, mkarr, dv, tag), dv(f"{tag}f"), G, full_stub)
-    _ask(d1, FULL_GETTERS)
-    _ask(d1.position_grid, POS_GETTERS)
-    _ask(d2, FULL_GETTERS)
-    _ask(d2.position_grid, POS_GETTERS)
+    def twin():
+        with bound(F, Voronoi=_NoQhull):
+            return make_fullgrid(F, TR, Vm, n_b, dirstub, radii_arr.copy(), factor, G, full_stub, cartesian=True)
+    d2 = _try(twin)
+    if d2 is not None:
+        _stub_cartesian_getters(d2.position_grid, mkarr, dv, tag)
+    d1 = _try(lambda: make_fullgrid(F, TR, Vm, n_b, dirstub, decoy_radii(n_t, mkarr, dv, tag), dv(f"{tag}f"), G, full_stub))
+    for d in (d1, d2):
+        if d is not None:
+            _ask(d, FULL_GETTERS)
+            _ask(d.position_grid, POS_GETTERS)
     return d1, d2
